@@ -5,7 +5,17 @@
 (*                                                                         *)
 (* State: two bitmap handles (1 = the bitmap under test, 2 = its clone,    *)
 (* dead until `clone` is called).  A handle is                             *)
-(*     [live, bs (byte size), ps (page size), dirty (set of page numbers)] *)
+(*     [live, bs (byte size), ps (page size), dirty (set of page numbers), *)
+(*      tr (tracked?)]                                                     *)
+(* tr = FALSE is the untracked flavour of the Bitmap trait: `()` and the   *)
+(* `None` of Option<B>.  Only the trait operations exist on it; marking    *)
+(* is a no-op, every query answers "clean", slicing yields another         *)
+(* untracked bitmap.                                                       *)
+(* The three ways of making a bitmap are one Init: new(bs, ps) as given,   *)
+(* NewBitmap::with_len(bs) = new(bs, host page size) and Default =         *)
+(* new(0, 4096); the recorded init event says which route the executor     *)
+(* took (`via`) and the specification is told (bs, ps) only, so a route    *)
+(* that builds another geometry fails the state comparison of its init.    *)
 (* Every public operation is one named action; each action is defined      *)
 (* through the pure operator Apply(bm, op, a) so that the trace            *)
 (* specification (Trace_Bitmap) can re-use exactly the same definitions    *)
@@ -36,8 +46,9 @@ CONSTANTS InitBS,      \* byte sizes given to AtomicBitmap::new
 VARIABLES bm, last
 vars == <<bm, last>>
 
-Dead == [live |-> FALSE, bs |-> 0, ps |-> 1, dirty |-> {}]
-Fresh(bs, ps) == [live |-> TRUE, bs |-> bs, ps |-> ps, dirty |-> {}]
+Dead == [live |-> FALSE, bs |-> 0, ps |-> 1, dirty |-> {}, tr |-> TRUE]
+Fresh(bs, ps) == [live |-> TRUE, bs |-> bs, ps |-> ps, dirty |-> {}, tr |-> TRUE]
+Untracked(ps) == [live |-> TRUE, bs |-> 0, ps |-> ps, dirty |-> {}, tr |-> FALSE]
 
 NP(b) == DivCeil(b.bs, b.ps)                 \* number of pages ( = len() )
 NW(b) == DivCeil(NP(b), WB)                  \* number of storage words
@@ -64,6 +75,7 @@ Apply(t, op, a) ==
     [] op = "clone"       -> Res([t EXCEPT ![2] = b], Unit)
     [] op = "enlarge"     -> Res([t EXCEPT ![a.h].bs = b.bs + a.add], Unit)
     \* Bitmap::mark_dirty / dirty_at called on the bitmap object itself
+    \* (an untracked handle has bs = 0, hence NP = 0 and Pages(..) = {}: marking it is a no-op by construction)
     [] op = "mark_dirty"  -> Res(Upd(t, a.h, b.dirty \cup Pages(NP(b), b.ps, a.s, a.l)), Unit)
     [] op = "dirty_at"    -> Res(t, Bool(PageOf(b, a.addr) \in b.dirty))
     [] op = "is_bit_set"  -> Res(t, Bool(a.i \in b.dirty))
@@ -78,7 +90,8 @@ Step(op, a) ==
     IN  /\ bm' = x.bm
         /\ last' = [op |-> op, a |-> a, r |-> x.r]
 
-Live == {h \in Handles : bm[h].live}
+LiveAny == {h \in Handles : bm[h].live}          \* trait operations: every flavour
+Live == {h \in LiveAny : bm[h].tr}                \* inherent AtomicBitmap operations: tracked handles only
 
 SetRange   == \E h \in Live, s \in AddrVals, l \in LenVals : Step("set_range",   [h |-> h, s |-> s, l |-> l])
 ResetRange == \E h \in Live, s \in AddrVals, l \in LenVals : Step("reset_range", [h |-> h, s |-> s, l |-> l])
@@ -86,22 +99,25 @@ SetBit     == \E h \in Live, i \in IdxVals : Step("set_bit",   [h |-> h, i |-> i
 ResetBit   == \E h \in Live, i \in IdxVals : Step("reset_bit", [h |-> h, i |-> i])
 GetAndReset == \E h \in Live : Step("get_and_reset", [h |-> h])
 Reset      == \E h \in Live : Step("reset", [h |-> h])
-Clone      == AllowClone /\ Step("clone", [h |-> 1])
-MarkDirty  == \E h \in Live, s \in AddrVals, l \in LenVals : Step("mark_dirty", [h |-> h, s |-> s, l |-> l])
-DirtyAt    == \E h \in Live, x \in AddrVals : Step("dirty_at", [h |-> h, addr |-> x])
+Clone      == AllowClone /\ bm[1].live /\ Step("clone", [h |-> 1])
+MarkDirty  == \E h \in LiveAny, s \in AddrVals, l \in LenVals : Step("mark_dirty", [h |-> h, s |-> s, l |-> l])
+DirtyAt    == \E h \in LiveAny, x \in AddrVals : Step("dirty_at", [h |-> h, addr |-> x])
 Enlarge    == \E h \in Live, add \in EnlVals :
                  /\ bm[h].bs + add <= MaxBS     \* management call; overflow here is a caller bug
                  /\ Step("enlarge", [h |-> h, add |-> add])
 IsBitSet   == \E h \in Live, i \in IdxVals : Step("is_bit_set", [h |-> h, i |-> i])
 IsAddrSet  == \E h \in Live, x \in AddrVals : Step("is_addr_set", [h |-> h, addr |-> x])
-SliceMark  == \E h \in Live, b1 \in BaseVals, b2 \in BaseVals, o \in SOffVals, l \in SLenVals :
+SliceMark  == \E h \in LiveAny, b1 \in BaseVals, b2 \in BaseVals, o \in SOffVals, l \in SLenVals :
                  Step("slice_mark", [h |-> h, b1 |-> b1, b2 |-> b2, off |-> o, l |-> l])
-SliceDirtyAt == \E h \in Live, b1 \in BaseVals, b2 \in BaseVals, o \in SOffVals :
+SliceDirtyAt == \E h \in LiveAny, b1 \in BaseVals, b2 \in BaseVals, o \in SOffVals :
                  Step("slice_dirty_at", [h |-> h, b1 |-> b1, b2 |-> b2, off |-> o])
 
-Init == \E bs \in InitBS, ps \in InitPS :
+Init == \/ \E bs \in InitBS, ps \in InitPS :
            /\ bm = <<Fresh(bs, ps), Dead>>
-           /\ last = [op |-> "init", a |-> [bs |-> bs, ps |-> ps], r |-> Unit]
+           /\ last = [op |-> "init", a |-> [bs |-> bs, ps |-> ps, tr |-> TRUE], r |-> Unit]
+        \/ \E ps \in InitPS :                                  \* `()` / None: no size, never dirty
+           /\ bm = <<Untracked(ps), Dead>>
+           /\ last = [op |-> "init", a |-> [bs |-> 0, ps |-> ps, tr |-> FALSE], r |-> Unit]
 
 Next == \/ SetRange \/ ResetRange \/ SetBit \/ ResetBit \/ GetAndReset \/ Reset
         \/ Clone \/ Enlarge \/ IsBitSet \/ IsAddrSet \/ SliceMark \/ SliceDirtyAt
@@ -112,6 +128,10 @@ Spec == Init /\ [][Next]_vars
 \* ---- properties (C09) -----------------------------------------------------
 \* no page index at or beyond the page count ever appears
 InRange == \A h \in 1..2 : bm[h].dirty \subseteq 0 .. NP(bm[h]) - 1
+
+\* the untracked flavours never report anything dirty, whatever was marked through them or their slices
+UntrackedClean == \A h \in 1..2 : ~bm[h].tr => bm[h].dirty = {} /\ bm[h].bs = 0
+UntrackedAnswers == (last.op \in {"dirty_at", "slice_dirty_at"} /\ ~bm[last.a.h].tr) => last.r = Bool(FALSE)
 
 \* fetch-and-clear returns the set and empties it; results never name a page >= len
 HarvestExact == last.op = "get_and_reset" =>
